@@ -16,7 +16,8 @@ RULE = ("qiskit circuits on 2-4 qubits, 1-7 gates drawn from h,x,y,z,s,sdg,t,tdg
         "outputs outside the qubit subspace must vanish and the rest must equal one common scalar k != 0 times "
         "qiskit's Operator (little-endian), with |k|^2 = (1/9)^a (1/16)^b (1/72)^c. A refusal must be a ValueError "
         "in a class where refusal is legitimate. Non-trivial = >= 1 multi-qubit gate and >= 1 non-diagonal "
-        "single-qubit gate; distinct = case JSON.")
+        "single-qubit gate; distinct = case JSON."
+        " Also: 5-6 qubit circuits with post-selection allowed, random and layered (brickwork) arrangements of entangling gates around one three-qubit gate, up to 10 photons, a generated subset of basis inputs when more than 8.")
 ASSUMPTIONS = [
     "qiskit.quantum_info.Operator is the reference for the target unitary",
     "refusal is accepted for: three-qubit gate with allow_post_selection=False; three-qubit gate on "
